@@ -2,7 +2,8 @@
 From KV Require Import Base.Prelude Base.Cond Model.Select Proofs.SelectP Model.World Proofs.WorldPlan Proofs.WorldInv.
 Open Scope Z_scope.
 
-(* In a cluster where every trial was built by getTrialInstance of its owner, and (namespace, name) identifies an
+(* In a cluster where every trial was built by getTrialInstance of its owner (it lives in the owner's namespace and carries the
+   owner's name under the experiment-name label; its other labels are arbitrary), and (namespace, name) identifies an
    experiment, the label-and-namespace selection of ReconcileSuggestion is exactly ownership. *)
 Theorem C09_selection : forall exps cl eid e,
   cluster_wf exps cl -> nth_error exps eid = Some e -> select e cl = own eid cl.
@@ -26,6 +27,14 @@ Theorem C09_selection_without_namespace_refuted :
   exists exps cl eid e, cluster_wf exps cl /\ nth_error exps eid = Some e /\ select_no_ns e cl <> own eid cl.
 Proof. exact selection_without_namespace_refuted. Qed.
 Print Assumptions C09_selection_without_namespace_refuted.
+
+(* F19 (repaired, katib 88eea22): the selector of the pinned tree -- every label the experiment carries now -- is NOT ownership
+   even in one namespace: an own trial whose assignment label shadows an experiment label (or that was created before the
+   experiment was relabelled) is left out; the name-label selector takes it. *)
+Theorem C09_selection_all_labels_refuted :
+  exists exps cl eid e, cluster_wf exps cl /\ nth_error exps eid = Some e /\ select_all_labels e cl <> own eid cl /\ select e cl = own eid cl.
+Proof. exact selection_all_labels_refuted. Qed.
+Print Assumptions C09_selection_all_labels_refuted.
 
 (* the numbers (joint controller model): every GetSuggestions request carries current = requests - suggestionCount > 0,
    total = requests and the filtered trials of the reconcile's snapshot; the early-stopping request carries the same trials *)
